@@ -21,6 +21,7 @@ def run(F, G, tier, seed):
     CG = CallGraph(F)
     effects.run_prepass(chk, F, CG, fields=("depends",))
     effects.run_ownlocals(chk, F, CG, fields=("depends",))
+    effects.run_block_locals(chk, F, CG)
     effects.run_visitors(chk, F, visitors=("UTAP::CollectDependenciesVisitor",))
     # checkType reaches array sizes and nested types
     rid3 = "R-CHECKTYPE"
